@@ -1527,6 +1527,17 @@ Qed.
    successful run - the argument being a truth value, nothing is lost in the truncation *)
 Theorem exit_status_ok ok : exit_status ok = 0 <-> ok = true.
 Proof. destruct ok; vm_compute; split; intro H; try reflexivity; discriminate. Qed.
+(* the run as a whole: the status is 0 exactly when no error / failure / unexpected success was reported since
+   the last startTestRun - whatever else was or was not called: no startTest at all (nothing selected, everything
+   skipped without being started), problems reported without a test having been started, ... *)
+Theorem exit_after i pre : wf_stack (stack i) = true -> finding_F18 i = false -> has_e2s i = false ->
+  has_foreign i = false ->
+  (exit_status (was_ok (fold_left do_op pre (init (stack i) (set_after i)))) = 0
+   <-> existsb is_problem (since_run pre) = false).
+Proof.
+  intros Hwf Hf He Hx. rewrite exit_status_ok, (was_ok_after i pre Hwf Hf He Hx). unfold want_ok.
+  apply negb_true_iff.
+Qed.
 Theorem exit_arg_small ok : exit_arg ok < 256.
 Proof. destruct ok; vm_compute; lia. Qed.
 (* why a status that counts the problems would not do: the operating system truncates it *)
